@@ -16,6 +16,11 @@ ok, out = vlib.build_opm(hard=True)
 print(out[-800:])
 if not ok:
     sys.exit(1)
+# third tree: AddressSanitizer (deck part of the C20 check)
+ok, out = vlib.build_opm(asan=True)
+print(out[-800:])
+if not ok:
+    sys.exit(1)
 PY
 python3 lib/regen_all.py
 (cd lean && lake build)
